@@ -245,7 +245,7 @@ func runC04Burst(t *testing.T, rng *rand.Rand, rec *sim.Rec, tier string, caseNo
 
 func init() {
 	register("C04", PropDef{
-		Bubble: true,
+		Bubble: false, // chosen per case
 		Cases: func(tier string) int {
 			if tier == "thorough" {
 				return 100000
@@ -254,21 +254,30 @@ func init() {
 			return 1400
 		},
 		Run: func(t *testing.T, rng *rand.Rand, rec *sim.Rec, tier string, caseNo int) {
-			if caseNo%5 == 4 {
-				runC04Burst(t, rng, rec, tier, caseNo)
+			if caseNo%50 == 27 {
+				// several clients on different loopback addresses behind one operating-system UDP
+				// listener: each relayed address delivers to its own client only
+				runC19Real(t, rng, rec, tier, caseNo/50)
 
 				return
 			}
-			if caseNo%10 == 3 {
-				// several TCP allocations connecting to the same peers: one client's peer connections
-				// must not influence another's
-				runC16(t, rng, rec, tier, caseNo)
+			inBubble(t, func(t *testing.T) {
+				if caseNo%5 == 4 {
+					runC04Burst(t, rng, rec, tier, caseNo)
 
-				return
-			}
-			h := newHist(t, rng, rec, c04Knobs)
-			h.crossFx = true
-			h.run()
+					return
+				}
+				if caseNo%10 == 3 {
+					// several TCP allocations connecting to the same peers: one client's peer connections
+					// must not influence another's
+					runC16(t, rng, rec, tier, caseNo)
+
+					return
+				}
+				h := newHist(t, rng, rec, c04Knobs)
+				h.crossFx = true
+				h.run()
+			})
 		},
 	})
 }
